@@ -47,6 +47,7 @@ func c12(c *Ctx) {
 	c15R1(c, "R13/C15.R1")
 	c15R2(c, "R13/C15.R2")
 	c12R14(c, "R14")
+	sSendsNewestSnapshot(c, "R14/C20.R10")
 }
 
 // c12R14: the periodic CommitTimeout tick of the replication routine is how a
